@@ -26,6 +26,10 @@ impl InputEvent {
         }
     }
 
+    pub fn is_comment(&self) -> bool {
+        matches!(&self.event, Event::Comment(_))
+    }
+
     pub fn cdata_string(&self) -> Option<String> {
         match &self.event {
             Event::CData(c) => Some(String::from_utf8(c.to_vec()).expect("utf8")),
